@@ -61,6 +61,32 @@ def _c08_leak(case, mm):
     return False
 
 
+@predicate("C08-cleared-then-inplace-rehomed-input")
+def _c08_rehomed(case, mm):
+    """Same root cause as C09-cleared-tensor-reused-or-mutated: backward()/clear_graph() empties a tensor's consumer
+    set, so a later in-place update cannot re-route the still-live consumers to a placeholder; they now name the
+    public tensor, whose *new* data array is unlocked once the in-place graph is released.  Signature: the history has
+    a backward/clear before an in-place update, and every array the live ops were actually called on or produced is
+    still read-only (the check passes when those recorded arrays are used instead of the tensors' current data)."""
+    if mm.kind != "unlocked_in_live_graph":
+        return False
+    seen_clear = hit = False
+    for s in case.get("stmts", []):
+        if s["k"] in ("backward", "clear"):
+            seen_clear = True
+        elif seen_clear and (s["k"] == "setitem" or (s["k"] == "op" and s.get("name") == "add_out")):
+            hit = True
+    if not hit:
+        return False
+    from vf.checks import c08
+
+    c08.RECORDED_ONLY = True
+    try:
+        return c08.check_case(case) is None
+    finally:
+        c08.RECORDED_ONLY = False
+
+
 @predicate("C04-atleast-kd-constant-alias")
 def _c04_atleast(case, mm):
     if mm.kind != "base" or "h" not in mm.extra:
